@@ -1,11 +1,9 @@
 From OV Require Import Common.Base C10.Model C10.Proofs.
 Local Open Scope Z_scope.
 
-Theorem C10_election_antisym : forall ida idb ea eb : _,
-  ida <> idb ->
-  forall ca cb na nb,
-  c_id ca = ida -> c_id cb = idb ->
-  n_eff na = ea -> n_eff nb = eb -> n_pprio na = eb -> n_pprio nb = ea ->
-  wins ca na idb = negb (wins cb nb ida).
+Theorem C10_election_antisym : forall ca cb na nb,
+  c_id ca <> c_id cb ->
+  n_pprio na = n_eff nb -> n_pprio nb = n_eff na ->
+  wins ca na (c_id cb) = negb (wins cb nb (c_id ca)).
 Proof. exact wins_antisym. Qed.
 Print Assumptions C10_election_antisym.
